@@ -29,12 +29,26 @@ CORPORA = {
                      FindPos="{0, 1, 2, 4, 7, 8, 12, 16, 24, 8168, 8176, 8180, 8184, 8185, 8188, 8189, 8190, 8191, 8192, 8196, 8200, 8208}"),
                  profiles=DEV_REL, place="both"),
     "cks": dict(model="MC_Header", cfg="MC_Cks", quick={}, thorough={}, profiles=DEV_REL, place="end"),
+    "ctor": dict(model="MC_Build", cfg="MC_Ctor", quick=dict(MaxContent=17), thorough=dict(MaxContent=40), profiles=DEV_REL, place="end"),
+    "boxed": dict(model="MC_Build", cfg="MC_Boxed", quick=dict(MaxTotal=8), thorough=dict(MaxTotal=17), profiles=DEV_REL, place="end"),
+    "builder": dict(model="MC_Build", cfg="MC_Builder", quick=dict(MaxSeq=2), thorough=dict(MaxSeq=3), profiles=DEV_REL, place="end"),
+    "hbuilder": dict(model="MC_Build", cfg="MC_HBuilder", quick=dict(MaxSeq=3), thorough=dict(MaxSeq=4), profiles=DEV_REL, place="end"),
     "load": dict(model="MC_Load", quick=dict(MaxT=72), thorough=dict(MaxT=160), profiles=DEV_REL, place="both"),
     "walk": dict(model="MC_Walk", quick=dict(MaxT=32), thorough=dict(MaxT=40), profiles=DEV_REL, place="both"),
 }
 
 # property -> list of corpus names; nontrivial rule used for evidence
 CHECKS = {
+    "C06": dict(corpora=["builder"],
+                rule="all call sequences up to MaxSeq over 7 representative slots x 2 contents; every one of the 22 slots alone and in all ordered pairs"),
+    "C07": dict(corpora=["ctor", "builder", "hbuilder"],
+                rule="every public constructor of both crates x 2 byte-marked argument sets; variable-length kinds with content lengths 0..MaxContent; "
+                     "constructors reached through the builders' setters as well"),
+    "C12": dict(corpora=["hbuilder"],
+                rule="all 2^10 subsets of the header builder's slots x both architectures; all call sequences of length 2..MaxSeq over 3 slots x 2 contents"),
+    "C16": dict(corpora=["boxed", "ctor"],
+                rule="new_boxed on all partitions of content of total length 0..MaxTotal into <= 3 slices x 3 header kinds (each also cloned); "
+                     "every heap-allocated tag kind x content lengths 0..MaxContent constructed, cloned and dropped under a tracking allocator"),
     "C09": dict(corpora=["hwalk", "hdst", "hfields", "hgetters", "hload"],
                 rule="all lazily chosen header-tag sequences (4 type/flag pairs, sizes 0..remaining+9), every header-tag kind at every "
                      "declared size 0..40, conformant tags; every call checked for crash/hang and extents inside the declared header"),
